@@ -2,7 +2,7 @@ SPECIFICATION Spec
 CONSTANTS
   Uploaders = {"U1", "U2"}
   Mirrors = {"M1"}
-  Readers = {"R1"}
+  Readers = {}
   Archives = {"A", "B"}
   UpArchives = {"A", "B"}
   Kinds = {"pkg", "meta"}
@@ -14,6 +14,7 @@ CONSTANTS
   PkgReplace = FALSE
   MaxFault = 1
   MaxCrash = 1
+  Planned = FALSE
   GenDepth = 0
 VIEW view
 INVARIANT ReachMetaReplaced
